@@ -187,6 +187,9 @@ class SymbolCodePrinter(StrPrinter):  # type: ignore[misc]
         tex2 = ""
         if d_n == S.One:
             tex2 = convert_args(d_d)
+            # a lone factor that binds weaker than a product (a sum) keeps its brackets
+            if not d_d.is_Mul and needs_mul_brackets(d_d, first=False, last=True):
+                tex2 = f"({tex2})"
         elif d_d == S.One:
             sdenom = convert_args(d_n)
             mul_in_denom = False
